@@ -36,7 +36,8 @@ static constexpr OperandSignature reg_size_to_gp_signature_table[8 + 1] = {
 
 [[nodiscard]]
 static inline uint32_t get_xmm_mov_inst(const FuncFrame& frame) {
-  bool avx = frame.is_avx_enabled();
+  // AVX-512 implies AVX (consistent with `EmitHelper::reset()`) - legacy SSE moves cannot encode XMM16..31.
+  bool avx = frame.is_avx_enabled() || frame.is_avx512_enabled();
   bool aligned = frame.has_aligned_vec_save_restore();
 
   return aligned ? (avx ? Inst::kIdVmovaps : Inst::kIdMovaps)
